@@ -419,9 +419,6 @@ func driveMerge(prop string, seed int64, tier, out, replay string) {
 			case "C05":
 				addPerms(setToCase(base, hide, "mergeable"), "", 6)
 				for _, k := range gen.ConflictKinds {
-					if k == "field_signature" {
-						continue // listed finding C05-field-signature: replayed below, excluded from the random stream
-					}
 					if cs, ok := gen.Conflict(rng, base, k); ok && rng.Intn(2) == 0 {
 						addPerms(setToCase(cs, hide, "conflict:"+k), k, 6)
 					}
